@@ -119,7 +119,11 @@ class CPreProcessor:
 
     def special_macro_include_level(self, macro_token):
         """Implement __INCLUDE_LEVEL__ macro"""
-        value = str(len(self.files))
+        source_files = []
+        for file in self.files:
+            if file.source_file not in source_files:
+                source_files.append(file.source_file)
+        value = str(len(source_files))
         return [self.make_token(macro_token, "NUMBER", value)]
 
     @staticmethod
@@ -522,9 +526,10 @@ class CPreProcessor:
 
     def expand_token_sequence(self, tokens):
         """Macro expand a sequence of tokens."""
-        # Push a new file onto the file stack:
-        filename = "<macro>"
-        source_file = SourceFile(filename)
+        # Push a new token source onto the file stack. It refers to the
+        # source file being processed, such that __LINE__, __FILE__ and
+        # friends keep their meaning inside macro arguments.
+        source_file = self.files[-1].source_file
         macro_file = FileExpander(source_file, iter(tokens))
         self.files.append(macro_file)
         expansion = list(self.process_tokens())
